@@ -1,5 +1,57 @@
-"""C20: compile-probed deny lists (features of a configuration that do not compile on the unchanged tree)."""
+"""C20: compile-probed deny lists: features of a configuration that do not compile on the unchanged tree.
+
+Generated from a probe that compiled every (configuration, feature) pair alone (g++ -fsyntax-only):
+ * cast(a, kind::ndarray_{c,f,h,d}s_*) from a source without a constant shape but with a fixed/bounded dimension is a hard
+   compile error (resolve_optype<cast_kind_t> evaluates the clipped-shape branch with an empty argument list);
+ * cast<dtype>(a) has no replace_element_type for utl::static_vector buffers;
+ * cast<hybrid_ndarray>(dynamic source) needs resize(list) which hybrid_ndarray does not have.
+bit k of a mask = kind / dtype id k of harness/c20_hist.hpp."""
 DENY_CONFIG = set()
-DENY_KINDS = {}
-DENY_DTYPES = {}
-DENY_CAST_INTO = set()
+DENY_KINDS = {
+    'fs_db': 0xfff,
+    'fs_db_col': 0xfff,
+    'fs_fb': 0xfff,
+    'fs_fb_col': 0xfff,
+    'fs_hb': 0xfff,
+    'fs_hbH': 0xfff,
+    'fs_hb_col': 0xfff,
+    'fs_hb_f8': 0xfff,
+    'hsH_db': 0xfff,
+    'hsH_db_col': 0xfff,
+    'hsH_hbH': 0xfff,
+    'hs_db': 0xfff,
+    'hs_db_col': 0xfff,
+    'hs_fb': 0xfff,
+    'hs_fb_col': 0xfff,
+    'hs_hb': 0xfff,
+    'hs_hb_col': 0xfff,
+    'hybrid12_2': 0xfff,
+    'hybrid6_1': 0xfff,
+    'hybrid8_3': 0xfff,
+    'ls_db': 0xfff,
+    'ls_db_col': 0xfff,
+    'ls_fb': 0xfff,
+    'ls_fb_col': 0xfff,
+    'ls_hb': 0xfff,
+    'ls_hb_col': 0xfff,
+    'lst_db': 0xfff,
+    'lst_db_col': 0xfff,
+    'lst_hb': 0xfff,
+    'lst_hb_col': 0xfff,
+}
+DENY_DTYPES = {
+    'cs_hb': 0x1f,
+    'cs_hb_col': 0x1f,
+    'ds_hb': 0x1f,
+    'ds_hb_col': 0x1f,
+    'fs_hb': 0x1f,
+    'fs_hb_col': 0x1f,
+    'fs_hb_f8': 0x1f,
+    'hs_hb': 0x1f,
+    'hs_hb_col': 0x1f,
+    'ls_hb': 0x1f,
+    'ls_hb_col': 0x1f,
+    'lst_hb': 0x1f,
+    'lst_hb_col': 0x1f,
+}
+DENY_CAST_INTO = {'hybrid8_3', 'hybrid6_1', 'hybrid12_2'}
